@@ -52,6 +52,11 @@ pub enum Fault {
     ExistingPrefixEqual,
     /// RLIMIT_FSIZE = permille/1000 of the full output length (in a child process)
     ShortWrite(u32),
+    /// the destination is a FIFO of minimal capacity whose reader takes 16 bytes and goes away: a document longer than
+    /// the pipe can hold cannot have been written in full, whatever the error is called (EPIPE)
+    PipeClosedEarly,
+    /// the destination is a FIFO whose reader takes everything: no fault, the reader must receive exactly the rendering
+    PipeDrained,
 }
 
 impl Fault {
@@ -114,6 +119,8 @@ pub fn from_json(v: &Value) -> Option<Case> {
             "ExistingSameLengthTail" => Fault::ExistingSameLengthTail,
             "ExistingSameLengthHead" => Fault::ExistingSameLengthHead,
             "ExistingPrefixEqual" => Fault::ExistingPrefixEqual,
+            "PipeClosedEarly" => Fault::PipeClosedEarly,
+            "PipeDrained" => Fault::PipeDrained,
             _ => return None,
         }
     };
@@ -321,6 +328,9 @@ pub fn check(c: &Case, obs: &mut Obs) -> Result<(), Fail> {
     let _ = std::fs::remove_file(&good);
     let cls = c.fault.name();
     let wname = if c.writer == Writer::Svg { "svg" } else { "png" };
+    if matches!(c.fault, Fault::PipeClosedEarly | Fault::PipeDrained) {
+        return pipe_case(c, &built, &want, &format!("{}/fifo-{}.{}", dir, uniq, ext), obs);
+    }
     // (path, must_fail)
     let (path, must_fail): (String, bool) = match &c.fault {
         Fault::None => (good.clone(), false),
@@ -413,6 +423,7 @@ pub fn check(c: &Case, obs: &mut Obs) -> Result<(), Fail> {
             (l, true)
         }
         Fault::ShortWrite(_) => (good.clone(), true),
+        Fault::PipeClosedEarly | Fault::PipeDrained => unreachable!("handled by pipe_case"),
     };
     // validate that the environment really provides the fault (else the class is skipped, never asserted)
     let provided = match &c.fault {
@@ -552,6 +563,116 @@ pub fn check(c: &Case, obs: &mut Obs) -> Result<(), Fail> {
     Ok(())
 }
 
+/// The destination is a FIFO. Its read end is opened first (non-blocking, so that the writer's open never waits) and
+/// shrunk to the smallest capacity the kernel grants; a reader thread then either takes 16 bytes and closes, or drains
+/// the pipe until the writer has returned. The process ignores SIGPIPE (Rust's runtime does), so a write to a pipe
+/// without reader fails with EPIPE. Asserted only where the kernel's behaviour leaves no choice: after an early close
+/// a document longer than capacity + 16 + one page cannot have been accepted in full, so Ok is a success report after
+/// an incomplete write; with a draining reader nothing fails, so the call must return Ok and the reader must hold
+/// exactly the in-memory rendering.
+fn pipe_case(c: &Case, built: &Built, want: &[u8], path: &str, obs: &mut Obs) -> Result<(), Fail> {
+    use std::io::Read;
+    use std::os::unix::fs::OpenOptionsExt;
+    use std::os::unix::io::AsRawFd;
+    use std::sync::atomic::{AtomicBool, Ordering};
+    let cls = c.fault.name();
+    let wname = if c.writer == Writer::Svg { "svg" } else { "png" };
+    let early = c.fault == Fault::PipeClosedEarly;
+    let _ = std::fs::remove_file(path);
+    let cpath = std::ffi::CString::new(path.as_bytes()).expect("fifo path");
+    if unsafe { libc::mkfifo(cpath.as_ptr(), 0o600) } != 0 {
+        obs.label(&format!("fault_not_available:{}", cls));
+        return Ok(());
+    }
+    let mut rd = match std::fs::OpenOptions::new().read(true).custom_flags(libc::O_NONBLOCK).open(path) {
+        Ok(f) => f,
+        Err(_) => {
+            let _ = std::fs::remove_file(path);
+            obs.label(&format!("fault_not_available:{}", cls));
+            return Ok(());
+        }
+    };
+    let cap = unsafe {
+        libc::fcntl(rd.as_raw_fd(), libc::F_SETPIPE_SZ, 4096);
+        libc::fcntl(rd.as_raw_fd(), libc::F_GETPIPE_SZ)
+    };
+    if cap <= 0 {
+        let _ = std::fs::remove_file(path);
+        obs.label(&format!("fault_not_available:{}", cls));
+        return Ok(());
+    }
+    let done = std::sync::Arc::new(AtomicBool::new(false));
+    let done2 = done.clone();
+    let reader = std::thread::spawn(move || {
+        let mut got: Vec<u8> = Vec::new();
+        let mut buf = [0u8; 65536];
+        let started = std::time::Instant::now();
+        loop {
+            let finished = done2.load(Ordering::SeqCst);
+            let lim = if early { 16 - got.len() } else { buf.len() };
+            match rd.read(&mut buf[..lim]) {
+                Ok(n) if n > 0 => {
+                    got.extend_from_slice(&buf[..n]);
+                    if early && got.len() >= 16 {
+                        break;
+                    }
+                }
+                // nothing there (yet): no writer has opened the pipe, or it is empty
+                _ => {
+                    if finished || started.elapsed().as_secs() > 120 {
+                        break;
+                    }
+                    std::thread::sleep(std::time::Duration::from_micros(200));
+                }
+            }
+        }
+        drop(rd);
+        got
+    });
+    let outcome = write_file(c, built, path);
+    done.store(true, Ordering::SeqCst);
+    let got = reader.join().expect("pipe reader");
+    let _ = std::fs::remove_file(path);
+    if let Outcome::Panic(p) = &outcome {
+        return fail(&format!("panic:{}:{}", wname, cls), format!("{} to_file panicked under fault {}: {} ({})", wname, cls, p, to_json(c)));
+    }
+    if early {
+        let decided = want.len() > cap as usize + 16 + 4096;
+        obs.label(if decided { "pipe_closed_early:longer_than_the_pipe" } else { "pipe_closed_early:fits_the_pipe_unasserted" });
+        if decided {
+            match &outcome {
+                Outcome::Ok => {
+                    return fail(
+                        &format!("ok_despite_fault:{}:{}", wname, cls),
+                        format!("{} to_file returned Ok although the reader of the destination pipe (capacity {} bytes) went away after {} of {} bytes ({})", wname, cap, got.len(), want.len(), to_json(c)),
+                    )
+                }
+                Outcome::Err(_, variant) => ensure!(*variant == "Io", &format!("error_variant:{}", wname), "I/O failure converts to ConvertError::{} instead of ConvertError::Io", variant),
+                Outcome::Panic(_) => unreachable!(),
+            }
+            obs.nontrivial(crate::engine::hash_bytes(format!("{}|{}|{:x}", wname, cls, c.build.hash()).as_bytes()));
+        }
+    } else {
+        match &outcome {
+            Outcome::Ok => ensure!(
+                got == want,
+                &format!("ok_but_differs:{}:{}", wname, cls),
+                "{} to_file returned Ok but the reader of the destination pipe received {} bytes and the in-memory rendering has {} (first difference at {:?})",
+                wname,
+                got.len(),
+                want.len(),
+                got.iter().zip(want.iter()).position(|(a, b)| a != b)
+            ),
+            Outcome::Err(t, _) => return fail(&format!("spurious_error:{}", wname), format!("{} to_file failed although the destination pipe was drained: {} ({})", wname, t, to_json(c))),
+            Outcome::Panic(_) => unreachable!(),
+        }
+    }
+    obs.label(&format!("fault:{}", cls));
+    obs.label(&format!("writer:{}", wname));
+    obs.sample(&format!("{}|{}", wname, cls), || json!({"case": to_json(c), "full_output_bytes": want.len(), "pipe_capacity": cap, "reader_received": got.len(), "outcome": format!("{:?}", outcome).chars().take(160).collect::<String>()}));
+    Ok(())
+}
+
 pub fn replay(_e: &Engine, case: &Value, obs: &mut Obs) -> Result<(), Fail> {
     let c = from_json(case).ok_or_else(|| Fail { sig: "bad_replay".into(), msg: "cannot parse case".into() })?;
     check(&c, obs)
@@ -581,6 +702,8 @@ fn fault_strategy() -> BoxedStrategy<Fault> {
         1 => Just(Fault::ExistingSameLengthHead),
         1 => Just(Fault::ExistingPrefixEqual),
         6 => prop_oneof![1 => Just(0u32), 1 => Just(999u32), 4 => 0u32..1000].prop_map(Fault::ShortWrite),
+        2 => Just(Fault::PipeClosedEarly),
+        1 => Just(Fault::PipeDrained),
     ]
     .boxed()
 }
@@ -597,13 +720,13 @@ pub fn run(e: &'static Engine) {
          the environment does not provide (probed first) are skipped and labelled, never asserted. Non-trivial: a fault was injected; \
          distinct by (writer, class, L bucket of 5%, QR).",
     );
-    e.extend_rule("the process works inside its scratch directory (logo.png, imgs/mark.png, out/ with different files of the same names): destinations absolute / relative / in the sub-directory, file-name extensions independent of the writer, PNG cases that really load an image (relative file, data URI, missing file); the writing renderer goes through the warm-up while the expected bytes come from a fresh one; existing-file classes (same length different head / tail, document plus extra bytes), symlink classes; the case is JSON-round-tripped before use.");
+    e.extend_rule("the process works inside its scratch directory (logo.png, imgs/mark.png, out/ with different files of the same names): destinations absolute / relative / in the sub-directory, file-name extensions independent of the writer, PNG cases that really load an image (relative file, data URI, missing file); the writing renderer goes through the warm-up while the expected bytes come from a fresh one; existing-file classes (same length different head / tail, document plus extra bytes), symlink classes; the case is JSON-round-tripped before use. Pipe classes: the destination is a FIFO shrunk to the kernel's minimal capacity whose reader takes 16 bytes and goes away (a document longer than capacity + 16 + one page must be answered with an error; shorter ones are labelled unasserted) or drains everything (Ok, and the reader holds exactly the rendering).");
     e.assume("the harness runs as root, for which file permissions do not apply: read-only locations are exercised through /proc, /sys, /dev/full, and through a child process that drops to uid/gid 65534 before writing into a 0555 directory / over a 0444 file (skipped and labelled if setuid is unavailable)");
     e.assume("RLIMIT_FSIZE with SIGXFSZ ignored makes the kernel return a partial write followed by EFBIG at exactly L");
     crate::engine::run_regress(e, &|c, o| replay(e, c, o));
     let all_faults = vec![
         Fault::None, Fault::ExistingLonger, Fault::MissingDir, Fault::MissingDirDotDot, Fault::SymlinkDirDotDot, Fault::IsDir, Fault::ParentIsFile, Fault::NameTooLong, Fault::EmbeddedNul,
-        Fault::EmptyPath, Fault::ReadOnlyProc, Fault::ReadOnlySys, Fault::DevFull, Fault::ReadOnlyDir, Fault::ReadOnlyFile, Fault::DanglingSymlink, Fault::SymlinkLoop, Fault::SymlinkToLonger, Fault::ExistingSameLengthTail, Fault::ExistingSameLengthHead, Fault::ExistingPrefixEqual, Fault::ShortWrite(0), Fault::ShortWrite(1), Fault::ShortWrite(500), Fault::ShortWrite(999),
+        Fault::EmptyPath, Fault::ReadOnlyProc, Fault::ReadOnlySys, Fault::DevFull, Fault::ReadOnlyDir, Fault::ReadOnlyFile, Fault::DanglingSymlink, Fault::SymlinkLoop, Fault::SymlinkToLonger, Fault::ExistingSameLengthTail, Fault::ExistingSameLengthHead, Fault::ExistingPrefixEqual, Fault::ShortWrite(0), Fault::ShortWrite(1), Fault::ShortWrite(500), Fault::ShortWrite(999), Fault::PipeClosedEarly, Fault::PipeDrained,
     ];
     let mut jobs: Vec<Job> = Vec::new();
     for (wi, writer) in [Writer::Svg, Writer::Png].into_iter().enumerate() {
